@@ -66,6 +66,10 @@ func runCase(env *vlib.Env, idx int, rep *vlib.Reporter) {
 	ctx := context.Background()
 	r := vlib.NewRng(env.Seed, 19, uint64(idx))
 	w := gossipnet.NewWorld(env.Seed+uint64(idx%3), 3, 2)
+	// the per-message key limit must exceed what one slot can select (production: 500 keys against
+	// at most 47 transactions of 21000 gas under the 1M encrypted gas limit, plus the slot identity);
+	// the queues here have up to 14 transactions
+	w.MaxKeys = 64
 	var nodes []*gossipnet.Node
 	for _, k := range []int{0, 2} {
 		n, err := gossipnet.NewNode(ctx, w, gossipnet.Gnosis, k, gossipnet.StateMemberSuccess)
